@@ -4,6 +4,7 @@ import (
 	"fmt"
 	"io"
 	"net/http"
+	"sort"
 
 	"github.com/DemoHn/Zn/pkg/common"
 	"github.com/DemoHn/Zn/pkg/exec"
@@ -53,7 +54,15 @@ func buildIncomingRequestBody(req *http.Request) (runtime.Element, error) {
 
 func buildIncomingRequest(r *http.Request) (runtime.Element, error) {
 	headerDict := value.NewEmptyHashMap()
-	for k, v := range r.Header {
+	// Go keeps headers and query parameters in maps: use a fixed (alphabetical)
+	// order so that the dictionaries are the same on every run
+	headerNames := make([]string, 0, len(r.Header))
+	for k := range r.Header {
+		headerNames = append(headerNames, k)
+	}
+	sort.Strings(headerNames)
+	for _, k := range headerNames {
+		v := r.Header[k]
 		if len(v) > 0 {
 			headerDict.AppendKVPair(value.KVPair{
 				Key:   k,
@@ -63,7 +72,14 @@ func buildIncomingRequest(r *http.Request) (runtime.Element, error) {
 	}
 
 	qsDict := value.NewEmptyHashMap()
-	for k, v := range r.URL.Query() {
+	queryValues := r.URL.Query()
+	queryNames := make([]string, 0, len(queryValues))
+	for k := range queryValues {
+		queryNames = append(queryNames, k)
+	}
+	sort.Strings(queryNames)
+	for _, k := range queryNames {
+		v := queryValues[k]
 		if len(v) > 0 {
 			qsDict.AppendKVPair(value.KVPair{
 				Key:   k,
